@@ -3,6 +3,7 @@ import Pyunicorn.Model.Equivariance
 import Pyunicorn.Model.Relabel
 import Pyunicorn.Model.Repr
 import Pyunicorn.Model.NetRW
+import Pyunicorn.Model.NetBetwDef
 /-! Line-protocol driver for C04. -/
 open Pyunicorn Pyunicorn.Proto Pyunicorn.Nsi
 
@@ -106,6 +107,21 @@ def netWeightedRelabelled (perm adjS mS wS : String) : String :=
     mvec n fun i => showRat (Net.cycleCW n a m i), mvec n fun i => showRat (Net.midCW n a m i),
     mvec n fun i => showRat (Net.inCW n a m i), mvec n fun i => showRat (Net.outCW n a m i),
     mvec n fun i => showOptRat (Net.weightedLocalClustering n w i)] "|"
+
+/-- round 5 — C03's kernel model of `_nsi_betweenness` and its definition on `permuted_copy(perm)`
+with the node weights, the source mask and the target list renumbered with the nodes -/
+def betwRelabelled (perm adjS wS srcS tgS : String) : String :=
+  let idx := permFn (nats perm)
+  let A := boolMat adjS; let n := A.length
+  let a := mat (adjFn A) idx
+  let w := vec (ratFn (rats wS)) idx
+  let isSrc := nodeList n idx false (bools srcS)
+  let targets := nodes n idx (nats tgS)
+  let D := (List.range n).map fun i => Net.bfs n a i
+  let d : NetBetw.DistFn := fun i j => (D.getD i []).getD j none
+  join [showNats targets,
+    showRats (NetBetw.nsiBetweenness n a w isSrc targets),
+    showRats (NetBetw.nsiBetweennessDef n a w d isSrc targets)] "|"
 
 /-- `Pyunicorn.Cross` (C11) on the renumbered network with the renumbered node lists -/
 def crossRelabelled (perm dirS adjS wS l1 l2 dS : String) : String :=
@@ -281,6 +297,7 @@ end relabelled
 def answer (toks : List String) : String :=
   match toks with
   | ["net", perm, dir, adj, w] => netRelabelled perm dir adj w
+  | ["betw", perm, adj, w, src, tg] => betwRelabelled perm adj w src tg
   | ["netw", perm, adj, m, w] => netWeightedRelabelled perm adj m w
   | ["cross", perm, dir, adj, w, l1, l2, d] => crossRelabelled perm dir adj w l1 l2 d
   | ["res", perm, adj, res] => resRelabelled perm adj res
